@@ -1,6 +1,6 @@
 (* C03 — the frequency grid obeys the DFT and stepping constraints (statements only) *)
 From Coq Require Import ZArith List Reals.
-From SK Require Import Arith Sched SchedThms.
+From SK Require Import Arith Sched SchedThms NewLtf.
 Import ListNotations.
 
 (* For ANY arithmetic carrier (so bit-exactly at binary64): f[j+1] = f[j] + r[j] starting at fmin,
@@ -14,6 +14,11 @@ Theorem C03_vec_grid_structural : forall (A : Arith) sq fuel (c : cfg A) grid f 
   vec_walk A sq fuel c grid f = Ok bs -> chain A f bs /\ Forall (bin_dft A c) bs.
 Proof. exact vec_walk_struct. Qed.
 Print Assumptions C03_vec_grid_structural.
+
+Theorem C03_new_ltf_grid_structural : forall (A : Arith) ph ex lg fuel (c : cfg A) J st fi bs,
+  new_loop A ph ex lg fuel c J st fi = Ok bs -> chain A fi bs /\ Forall (bin_dft A c) bs.
+Proof. exact new_loop_struct. Qed.
+Print Assumptions C03_new_ltf_grid_structural.
 
 (* At the reals: r*L = fs exactly, grid starts at bmin*fs/N, strictly increasing, below Nyquist,
    b = f*L/fs, and b >= bmin - f/(2 fs) (the half-sample rounding of L). *)
